@@ -66,9 +66,13 @@ def alg_cases(rng, tier):
     maxn = 13 if tier == "quick" else 36
     cases = []
     for i in range(ng):
-        if rng.random() < 0.45: g0 = spanner_keeps_cycles(rng, maxn)
+        rr = rng.random()
+        if rr < 0.40: g0 = spanner_keeps_cycles(rng, maxn)
+        elif rr < 0.50:
+            import exact_common
+            g0 = exact_common.dense_small(rng)
         else: g0 = gen.structural(rng, maxn if rng.random() < 0.9 else maxn + 8)
-        g, style = gen.weigh(rng, g0)
+        g, style = (g0, "dense-small") if 0.40 <= rr < 0.50 else gen.weigh(rng, g0)
         gt = gen.graph_tokens(g)
         ks = [rng.choice(KS)] if rng.random() < 0.7 else [rng.choice([1, 2]), rng.choice([0, 2, 3, 5, 50])]
         for k in ks:
